@@ -53,6 +53,22 @@ def null_refused_at_construction(ck, tm, rule):
     return n
 
 
+PAGE_SIZE_SOURCES = ("libc::sysconf",)
+
+
+def only_page_size(e):
+    """Is every leaf of the expression a constant or the result of the page-size query?"""
+    if not isinstance(e, E):
+        return True
+    if e.op == "const":
+        return True
+    if e.op == "ret":
+        return e.args[0] in PAGE_SIZE_SOURCES
+    if not e.args or e.op in ("leaf", "field", "mem", "fnaddr", "deref", "ref"):
+        return False
+    return all(only_page_size(a) for a in e.args if isinstance(a, E))
+
+
 def run(ck, models, tier):
     ck.decided, ck.not_decided = DECIDED, NOT_DECIDED
     ck.trusted += ["rustc MIR: elaborated drops and cleanup blocks", "std::thread::panicking() is true while unwinding", "std models"]
@@ -124,13 +140,17 @@ def run(ck, models, tier):
             # rustc-inserted assertion terminators reachable in the destructor (each is a potential panic while unwinding)
             mkey = [k_ for k_ in tm.machines if k_[0] == p]
             kinds = {}
+            conds = {}
             for k_ in mkey:
                 for note in tm.machines[k_].notes:
                     if note[0] == "assert":
                         kinds.setdefault(note[1], set()).add(short(note[2]))
+                        conds.setdefault(note[1], []).append(note[3] if len(note) > 3 else None)
             benign = ("Overflow", "MisalignedPointerDereference", "NullPointerDereference")
             for kind, fns in sorted(kinds.items()):
                 okk = kind in benign
+                if kind in ("DivisionByZero", "RemainderByZero") and all(c_ is not None and only_page_size(c_) for c_ in conds[kind]):
+                    okk = True          # x / page_size, x % page_size: the system's page size is not zero (tabulated environment fact)
                 ck.ob("R5.2", "%s/assertion/%s" % (short(adt), kind), tm.target, okk,
                       "destructor of %s reaches a non-constant `%s` assertion in %s: %s" % (
                           short(adt), kind, sorted(fns),
